@@ -122,7 +122,7 @@ def templates(ctx):
     # UpdateExportOptions: a whole struct
     p = {f: GIVEN for f in NF}
     p.update({f: GIVEN for f in TF})
-    p.update(tp=["nil", "set"], log=["nil", "l1", "l2"], rlc=["nil", "r1"], ro=["T", "F"], maxfs=["neg", "zero", "pos"],
+    p.update(tp=["nil", "set"], log=["nil", "l1", "l2"], rlc=["nil", "r1", "r2"], ro=["T", "F"], maxfs=["neg", "zero", "pos"],
              squash=["keep", "keep", "same", "other", "case"])
     rows, c1, t1 = covering(p, be, rng)
     for r in rows:
@@ -138,11 +138,29 @@ def templates(ctx):
         out.append(dict(kind="tuning", n={f: r[f] for f in NF}, tp=r["tp"], t={f: (r[f] if r["tp"] == "set" else "keep") for f in TF},
                         log=r["log"], rlc="keep", ro="keep", maxfs="keep", squash="keep"))
     # UpdatePolicyOptions: a whole PolicyOptions
-    p = dict(ro=["T", "F"], maxfs=["neg", "zero", "pos"], rlc=["nil", "r1"], squash=["same", "same", "other", "empty", "case"])
+    p = dict(ro=["T", "F"], maxfs=["neg", "zero", "pos"], rlc=["nil", "r1", "r2"], squash=["same", "same", "other", "empty", "case"])
     rows, c3, t3 = covering(p, bp, rng)
     for r in rows:
         out.append(dict(kind="policy", n={f: "keep" for f in NF}, tp="keep", t={f: "keep" for f in TF}, log="keep",
                         rlc=r["rlc"], ro=r["ro"], maxfs=r["maxfs"], squash=r["squash"]))
+    # nested structures, one field at a time: everything at top level is left alone (or positive) and a single
+    # sub-field of Timeouts is zero / negative, or a freshly allocated TimeoutConfig is only partly filled
+    keepn, keept = {f: "keep" for f in NF}, {f: "keep" for f in TF}
+    nested = []
+    for f in rng.sample(TF, 1 if q else 5) + [rng.choice(["T_Read", "T_Lookup", "T_Default"])]:
+        nested.append(dict(kind="tuning", n=dict(keepn), tp="set", t=dict(keept, **{f: rng.choice(["zero", "neg"])}),
+                           log="keep", rlc="keep", ro="keep", maxfs="keep", squash="keep"))
+    some = rng.sample(TF, 3)
+    nested.append(dict(kind="tuning", n=dict(keepn), tp="set", t={f: ("p1" if f in some else "zero") for f in TF},   # &TimeoutConfig{a, b, c}
+                       log="keep", rlc="keep", ro="keep", maxfs="keep", squash="keep"))
+    f = rng.choice(TF)
+    nested.append(dict(kind="export", n={x: "p1" for x in NF}, tp="set", t={x: ("neg" if x == f else "p2") for x in TF},
+                       log="l1", rlc="r2", ro="F", maxfs="zero", squash="same"))
+    if not q:
+        nested.append(dict(kind="tuning", n=dict(keepn, TransferSize="p2"), tp="set", t=dict(keept, T_Write="zero", T_Default="neg"),
+                           log="l2", rlc="keep", ro="keep", maxfs="keep", squash="keep"))
+    out += nested
+    ctx.cov["nested_templates"] = len(nested)
     ctx.cov["covering_array"] = {"export_rows": be, "tuning_rows": bt, "policy_rows": bp,
                                  "pairs_covered": [c1, c2, c3], "pairs_total": [t1, t2, t3]}
     return out
@@ -155,7 +173,7 @@ def generate(ctx):
     vflib.write_ndjson(tp, tpl)
     vp = os.path.join(ctx.scratch, "vectors.ndjson")
     nt = len(tpl)
-    mod = max(1, (nt ** 3) // (100 if ctx.quick() else 3000))
+    mod = max(1, (nt ** 3) // (60 if ctx.quick() else 3000))
     cfg = ctx.write_cfg("Config", "Gen.cfg", GEN_CFG % dict(nf=ctx.tla_set(NF), tf=ctx.tla_set(TF), maxlen=3, mod=mod, res=ctx.seed % mod))
     r = ctx.tlc("Config", "ConfigGen", cfg, workers=1, timeout=600, env={"VF_TEMPLATES": tp, "VF_VECTORS": vp}, heap="3g", deadlock=False)
     if not os.path.exists(vp) or os.path.getsize(vp) == 0:
